@@ -310,7 +310,12 @@ def oracle(raw):
     if r0[0] == 0:
         if f[0] != 0:
             return 'outcome'
-        return None if f == r0 else 'value'
+        if f == r0:
+            return None
+        a, b = r0[1], f[1]
+        if a[0] == b[0] and a[0] in (3, 4) and {a[1], b[1]} == {0, 1 << 63}:
+            return 'zero-sign'
+        return 'value'
     return 'outcome'
 
 
@@ -457,10 +462,12 @@ def oracle_suite(ctx, exe, fn, label):
                 r = cache.get(json.dumps(s))
                 if r is None or 'fold' not in r:
                     continue
-                k = oracle(r) if which == 'v' else bound_oracle(r)
-                if k is not None:
+                if oracle(r) is not None or (which == 'b' and bound_oracle(r) is not None):
                     return blame(s, r, which)
         k = oracle(raw) if which == 'v' else bound_oracle(raw)
+        if k is None:
+            # reached through a child that differs in the other respect
+            k = oracle(raw) or bound_oracle(raw)
         return c, raw, k
     for c, raw, k, kb in pend:
         if k is not None:
@@ -589,24 +596,36 @@ def levels_suite(ctx, exe, fn, nprog, batch=20):
     subres = dict(zip([json.dumps(s) for s in subs], vlib.run_impl('foldfn.all_case', subs)))
     for i, form, text, r, (kind, lv) in pend:
         c, raw = fn.cases[i], fn.raw[i]
-        op, lt, rt = root_sig(c, raw)
-        bc = c
+        # the signature names the innermost subexpression whose compile-time
+        # evaluation differs from its run-time evaluation (function-level oracle)
+        # and that difference; 'ctx-<kind>' = only the statement context differs
+        bc, braw = c, raw
         for ch in children(c):
             s = strip_paren(ch)
             if s[0] in (2, 3):
                 rr = subres[json.dumps(s)]
                 if 'fold' in rr and (oracle(rr) is not None or
                                      (form == 'dim' and bound_oracle(rr) is not None)):
-                    bc = s
-                    op, lt, rt = root_sig(s, rr)
+                    bc, braw = s, rr
                     break
-        what = 'fold-differs' if lv == 1 else 'level2-differs'
-        if form == 'dim' and kind == 'layout':
+        op, lt, rt = root_sig(bc, braw)
+        fk = oracle(braw)
+        what = 'fold-differs'
+        if fk is None and form == 'dim' and bound_oracle(braw) is not None:
+            fk = bound_oracle(braw)
             what = 'static-bound-differs'
+        if lv >= 2:
+            what = 'level2-differs'
+            fk = kind
+        elif fk is None:
+            fk = 'ctx-' + kind
         detail = {'suite': 'fold_levels', 'src': text, 'form': form, 'expr': describe(c),
-                  'blamed': describe(bc), 'first_differing_level': lv,
+                  'blamed': describe(bc), 'first_differing_level': lv, 'program_level_kind': kind,
                   'level0': r[0], 'levelN': r[lv]}
-        ctx.report(f'C02/{what}(op={op},lt={lt},rt={rt},kind={kind})', detail, True)
+        if fk == 'zero-sign' or (kind == 'value' and isinstance(r[0].get('text'), str) and
+                                 r[0]['text'].replace('-0 ', ' 0 ') == r[lv].get('text', '').replace('-0 ', ' 0 ')):
+            fk = 'zero-sign' if lv == 1 else fk
+        ctx.report(f'C02/{what}(op={op},lt={lt},rt={rt},kind={fk})', detail, True)
     # static layout vs run-time bounds at level 0 (DIM form)
     ctx.count('fold_levels', nst, set(t for _, _, t in single) | set(t for p in progs for _, _, t in p))
     if single:
